@@ -1528,12 +1528,14 @@ def run_C16(ctx: Ctx) -> Result:
             ind = []
             for x in phys:
                 st_ = x.lstrip()
-                ind.append((rng.choice([" ", "  ", "\t ", "\u00a0 "]) if st_ and st_[0] not in "#\"`" and rng.random() < 0.5 else "") + x)
-            reqs.append(driver.request("layoutok", stop_, "en", src, "".join(ind)))
-            meta_.append((src, stop_, phys, ind))
+                p_ind = 0.5 if st_ and st_[0] not in "#\"`" else (0.25 if st_ and st_[0] in "\"`" else 0.0)
+                ind.append((rng.choice([" ", "  ", "\t ", "\u00a0 "]) if rng.random() < p_ind else "") + x)
+            cm_ = rng.choice(["# inserted\n", "  #x \t\n", "#\n", "\t# language: fr\n", "# @t | Given \"\"\"\r\n", " \u00a0#é😀\n"])
+            reqs.append(driver.request("layoutok", stop_, "en", src, "".join(ind), cm_))
+            meta_.append((src, stop_, phys, ind, cm_))
     outs_ = driver.batch(reqs) if reqs else []
-    n_blank = n_ind = 0
-    for (src, stop_, phys, ind), m_ in zip(meta_, outs_):
+    n_blank = n_ind = n_cm = 0
+    for (src, stop_, phys, ind, cm_), m_ in zip(meta_, outs_):
         base_o = outcome(src, stop_)
         ks = [k_ for k_ in m_.get("blank", []) if k_ < len(phys) or src.endswith("\n") or not src]
         if src not in explicit:
@@ -1548,7 +1550,25 @@ def run_C16(ctx: Ctx) -> Result:
                 res.fail("metamorphic", {"source": src, "stop": stop_, "transform": f"theorem:blank-line-after-{k_}-lines", "transformed": t}, got, want,
                          f"C16_blank_line_text applies (the model reads a blank line as Empty after {k_} lines) but the implementation's outcome "
                          f"is not the original with line numbers > {k_} moved down by one: {first_diff(got, want)}")
-        if m_.get("indent"):
+        # a comment line inserted where the state builds a comment and stays (C16_comment_line_text)
+        kc = [k_ for k_ in m_.get("comment", []) if k_ < len(phys) or src.endswith("\n") or not src]
+        if src not in explicit:
+            rng.shuffle(kc)
+            kc = kc[: ctx.n(3, 8)]
+        for k_ in kc:
+            t = "".join(phys[:k_]) + cm_ + "".join(phys[k_:])
+            want = rename(base_o, lambda l: l + 1 if l > k_ else l, lambda l, c: c)
+            if "ok" in want:
+                cs_ = want["ok"]["comments"]
+                newc = {"location": {"line": k_ + 1, "column": 1}, "text": cm_.rstrip("\r\n")}
+                want = {**want, "ok": {**want["ok"], "comments": [c for c in cs_ if c["location"]["line"] <= k_] + [newc] + [c for c in cs_ if c["location"]["line"] > k_]}}
+            got = outcome(t, stop_)
+            n_cm += 1
+            if got != want:
+                res.fail("metamorphic", {"source": src, "stop": stop_, "transform": f"theorem:comment-line-after-{k_}-lines", "transformed": t}, got, want,
+                         f"C16_comment_line_text applies (after {k_} lines the model builds a comment and stays) but the implementation's outcome is not "
+                         f"the original with later lines moved down by one and exactly this comment added: {first_diff(got, want)}")
+        if m_.get("indent") or m_.get("indent2"):
             t = "".join(ind)
             w_ = [len(a_) - len(b_) for a_, b_ in zip(ind, phys)]
             want = rename(base_o, lambda l: l, lambda l, c: c + (w_[l - 1] if 0 < l <= len(w_) else 0))
@@ -1556,10 +1576,11 @@ def run_C16(ctx: Ctx) -> Result:
             n_ind += 1
             if got != want:
                 res.fail("metamorphic", {"source": src, "stop": stop_, "transform": "theorem:indent", "transformed": t}, got, want,
-                         "C16_indent_document_check applies (every moved line was built as a keyword / step / tag / row / blank line) but the "
+                         "C16_indent_document_check / C16_indent_closing_delimiter_document_check applies (every moved line was built as a keyword / step / tag / row / blank line or a closing delimiter) but the "
                          f"implementation's outcome is not the original with the columns of the moved lines shifted: {first_diff(got, want)}")
     res.stats["theorem_driven_blank_insertions"] = n_blank
     res.stats["theorem_driven_indentations"] = n_ind
+    res.stats["theorem_driven_comment_insertions"] = n_cm
     # file loading: source_event reads the text unchanged; TokenScanner(path) == text for LF/CRLF documents
     d = os.path.join(ctx.scratch.dir, "files")
     os.makedirs(d, exist_ok=True)
@@ -2057,7 +2078,7 @@ PROPS = {
                 rule="all (header, template) pairs with templates ≤ L over an adversarial alphabet × 14 headers; synthetic and parsed outlines; non-trivial = substitution changed the text"),
     "C10": dict(modules=["C10"], run=make_compile_run(proj_pickle_types, extra_C10), exhaustive=True,
                 rule="all keyword-type sequences ≤ L over 5 types × background split × {plain, outline} as real text; synthetic ASTs; non-trivial = at least one pickle"),
-    "C11": dict(modules=["C11", "C11Builder", "C11Tree", "C03Parse"], run=make_compile_run(proj_pickle_ids, extra_C11), rule=GEN_RULE + "plus sequences of sources through one stream; non-trivial = ids were drawn"),
+    "C11": dict(modules=["C11", "C11Builder", "C11Tree", "C03Parse", "C11Pipeline"], run=make_compile_run(proj_pickle_ids, extra_C11), rule=GEN_RULE + "plus sequences of sources through one stream; non-trivial = ids were drawn"),
     "C12": dict(modules=["C12"], run=run_C12, exhaustive=True,
                 rule="every row string ≤ L over {|, \\, n, space, tab, other} plus Unicode rows; generated ragged/rectangular tables; non-trivial = at least one cell"),
     "C13": dict(modules=["C13", "C03Doc"], run=run_C13, translators=["parser_table"], rule="doc strings with content lines from every Gherkin-looking kind, both delimiters, all indentation relations; matcher in the content state; non-trivial = accepted"),
@@ -2065,7 +2086,7 @@ PROPS = {
                 rule=GEN_RULE + "both error modes; all line-kind sequences ≤ L for error positions; non-trivial = rejected"),
     "C15": dict(modules=["C15"], run=run_C15, exhaustive=True,
                 rule="all ordered pairs (thorough: triples) of 12 state-perturbing documents through one Parser+TokenMatcher, sampled longer histories, random schedules of 2–3 concurrent parses gated at TokenScanner.read; non-trivial = any"),
-    "C16": dict(modules=["C16", "C16Doc", "C16Doc2", "C16Doc3", "C16Doc3Tie"], run=run_C16, rule=GEN_RULE + "× {CRLF, final newline, trailing blanks, indentation, blank line, comment line} at sampled admissible positions; file loading; non-trivial = any"),
+    "C16": dict(modules=["C16", "C16Doc", "C16Doc2", "C16Doc3", "C16Doc3Tie", "C16Doc4"], run=run_C16, rule=GEN_RULE + "× {CRLF, final newline, trailing blanks, indentation, blank line, comment line} at sampled admissible positions; file loading; non-trivial = any"),
     "C17": dict(modules=["C17"], run=run_C17, rule="sequences of 1–3 sources × 8 option combinations through one GherkinEvents; non-trivial = at least one envelope"),
     "C18": dict(modules=["C18", "C18Order", "C18Pure"], run=run_C18, translators=["parser_table"], exhaustive=True,
                 rule="all tag/comment/blank runs ≤ L before Examples/Scenario/Rule/unexpected lines as real text, sampled longer arrangements, corpus token listings; non-trivial = any"),
